@@ -11,6 +11,7 @@ import (
 	"strconv"
 	"strings"
 	"sync"
+	"sync/atomic"
 	"syscall"
 	"time"
 
@@ -42,8 +43,8 @@ type Result struct {
 	HangInfo string               `json:"hangInfo,omitempty"`
 	Order    string               `json:"order"` // realised completion order (exit events)
 	// HoldReached: the HoldOpen level was reached before the liveness bound.
-	HoldReached bool `json:"holdReached,omitempty"`
-	WallUS   int64                `json:"wallUS"`
+	HoldReached bool  `json:"holdReached,omitempty"`
+	WallUS      int64 `json:"wallUS"`
 	// DepSnaps: the state of every dependency at the instant a step's executor
 	// was created (the step had been chosen for launch by then).
 	DepSnaps []DepSnap `json:"depSnaps,omitempty"`
@@ -262,12 +263,25 @@ func Run(c Case, bound time.Duration) *Result {
 	return env.Drive(bound)
 }
 
+// hangSeen: a confirmed hang has been reported in this process. Everything the
+// library runs afterwards only serves to minimise that established case, so it
+// runs with a fifth of the bound and without the confirmation pass (a liveness
+// failure otherwise costs 6 bounds per shrink attempt).
+var hangSeen atomic.Bool
+
+// NoteHang records a confirmed hang; HangSeen reports it.
+func NoteHang()      { hangSeen.Store(true) }
+func HangSeen() bool { return hangSeen.Load() }
+
 // DefaultBound is the first-pass bounded-liveness limit for a case.
 func DefaultBound(c *Case) time.Duration {
 	pause := time.Duration(c.PauseUS) * time.Microsecond
 	b := 2000 * pause
 	if b < 5*time.Second {
 		b = 5 * time.Second
+	}
+	if HangSeen() {
+		b /= 5
 	}
 	return b * time.Duration(LoadFactor())
 }
@@ -277,8 +291,14 @@ func DefaultBound(c *Case) time.Duration {
 func RunConfirm(c Case) *Result {
 	b := DefaultBound(&c)
 	r := Run(c, b)
+	if r.Hang && HangSeen() {
+		return r
+	}
 	if r.Hang {
 		r2 := Run(c, 5*b)
+		if r2.Hang {
+			NoteHang()
+		}
 		if !r2.Hang {
 			r2.HangInfo = "first pass exceeded bound, confirmed run finished (inconclusive-slow)"
 			return r2
